@@ -9,7 +9,7 @@ from . import gen_lock, lockstep, p08_hist, p05
 from .harness import new_result, fail, bump
 
 PROP = 'C08'
-RUNS = {'quick': 24000, 'thorough': 1200000}
+RUNS = {'quick': 32000, 'thorough': 1200000}
 BUDGET_S = {'quick': 120, 'thorough': 2000}
 CHUNK = 100
 PROPS = {'C08'}
@@ -67,8 +67,15 @@ def run_range_sweep(scn):
     regs = rp.sim.registers
     rom = bytes(rp.sim.memory[0:0x4000])
     limits = [255] * 12 + [65535, 65535, 255, 255] + [255] * 8 + [65535, None, 1, 2, 1, 65535]
+    memory = rp.sim.memory
+    code = scn['code']
     for case in range(scn['cases']):
         state = p05.sweep_state(rng, scn['pc'])
+        if case:
+            # same dispatch slot, fresh operand bytes (immediate addresses are drawn from the boundary targets half the time)
+            code = gen_lock.slot_bytes(rng, scn['slot'])
+            for i, b in enumerate(code):
+                memory[(scn['pc'] + i) & 0xFFFF] = b
         for i, v in enumerate(state):
             regs[i] = v
         if rp.world is not None:
@@ -77,7 +84,7 @@ def run_range_sweep(scn):
         try:
             rp.step()
         except Exception as e:
-            return fail(res, 'C08/exception/%s/%s' % (scn['engine'], type(e).__name__), '%s raised %s: %s for code %s\n pre: %s' % (scn['engine'], type(e).__name__, e, bytes(scn['code']).hex(), lockstep._fmt_regs(state)))
+            return fail(res, 'C08/exception/%s/%s' % (scn['engine'], type(e).__name__), '%s raised %s: %s for code %s\n pre: %s' % (scn['engine'], type(e).__name__, e, bytes(code).hex(), lockstep._fmt_regs(state)))
         got = rp.regs()
         bump(res, 'events')
         bump(res, 'range_sweep_cases')
@@ -87,7 +94,7 @@ def run_range_sweep(scn):
             lim = limits[i]
             if v < 0 or (lim is not None and v > lim):
                 return fail(res, 'C08/range/%s' % lockstep.REGNAMES[i], '%s: register %s=%d out of range after code %s (boundary sweep case %d)\n pre: %s' % (
-                    scn['engine'], lockstep.REGNAMES[i], v, bytes(scn['code']).hex(), case, lockstep._fmt_regs(state)))
+                    scn['engine'], lockstep.REGNAMES[i], v, bytes(code).hex(), case, lockstep._fmt_regs(state)))
         if got[25] < state[25]:
             return fail(res, 'C08/clock-decreased', '%s: T went from %d to %d after code %s' % (scn['engine'], state[25], got[25], bytes(scn['code']).hex()))
     try:
